@@ -54,7 +54,9 @@ type Arg struct {
 
 // ExprHash returns a unique identifier for an Expr.
 func ExprHash(fset *token.FileSet, n ast.Expr) string {
-	pos := fset.Position(n.Pos())
+	// The position in the file itself: one adjusted by a //line directive may
+	// have no column and would not be unique.
+	pos := fset.PositionFor(n.Pos(), false)
 	return fmt.Sprintf("m%v%d_%d", TrimFilename(pos.Filename), pos.Line, pos.Column)
 }
 
